@@ -1188,15 +1188,16 @@ def doc_same_as_input(doc, exported):
     """oracle on the implementation alone: the exported document names the same points with the same status and coordinates,
     the same parameters, and the same vectors / coordinates clusters (values and covariances) as the input it was read from"""
     gi, ge = canon_real(doc), canon_real(exported)
-    # points: last definition wins; <coordinates> points go through process_point as well
+    # points: last definition wins; <coordinates> points go through process_point as well — but (6848bc2a) their values are
+    # observations: they give a point only the coordinate groups it does not have yet (status attributes apply as always)
     pin = {}
-    def upd(a):
+    def upd(a, observed=False):
         d = dict(a)
         i = N.pid_norm(d.get("id", ""))
         p = pin.setdefault(i, {"xy": None, "z": None, "st": ("none", "none")})
-        if "x" in d:
+        if "x" in d and not (observed and p["xy"] is not None):
             p["xy"] = (float(d["x"]), float(d["y"]))
-        if "z" in d:
+        if "z" in d and not (observed and p["z"] is not None):
             p["z"] = float(d["z"])
         st = norm_status(d.get("fix", ""), d.get("adj", ""))
         p["st"] = (st[0] if st[0] != "none" else p["st"][0], st[1] if st[1] != "none" else p["st"][1])
@@ -1205,7 +1206,7 @@ def doc_same_as_input(doc, exported):
             upd(a)
         elif tag == "co":
             for _, ka in kids:
-                upd(ka)
+                upd(ka, observed=True)
     pex = {N.pid_norm(dict(a).get("id", "")): dict(a) for tag, a, _, _ in ge if tag == "pt"}
     for i, p in pin.items():
         if p["st"] == ("none", "none"):
